@@ -6,7 +6,7 @@ package maps
 // Keys: the keys of the map, each exactly once, in strictly increasing order (hence a function of the
 // map's contents alone: two strictly increasing sequences with the same elements are equal, M2).
 //@ func Keys pure
-//@   property C08 C09 C11
+//@   property C08 C09 C11 C02 C03 C04 C05 C06 C07 C10 C13 C14 C15 C16 C18
 //@   ensures [nonnil] result != nil
 //@   ensures [sound] forall i int :: 0 <= i && i < len(result) ==> result[i] in input
 //@   ensures [complete] forall k K :: k in input ==> (exists i int :: 0 <= i && i < len(result) && result[i] == k)
@@ -59,7 +59,7 @@ package maps
 // increasing key order (this is the higher-order contract that call sites of maps.Iterate rely on; the
 // value passed is input[key] by the one-line body).
 //@ func Iterate
-//@   property C08 C09
+//@   property C08 C09 C02 C03 C04 C05 C06 C07 C10 C11 C13 C14 C15 C16 C18
 //@   ensures [one_call_per_key_in_key_order] tlen() == old(tlen()) + len(Keys(input))
 //@        && (forall j int :: 0 <= j && j < len(Keys(input)) ==> evIs(old(tlen()) + j, "dyncall") && evS1(old(tlen()) + j) == Keys(input)[j])
 //@   loop 1
